@@ -37,7 +37,7 @@ RULE = ('A: per (SMTP|LMTP, PIPELINING on/off, n=1..3): every single and double 
         'ehlo(+500), helo, mail, rcpt_i, data, eod / eod_i, rset, quit x outcomes {4xx,5xx,malformed,bad code,disconnect}; '
         'STARTTLS (required or not) and AUTH stages with every single deviation; refused connection; 2 envelopes on a '
         're-used connection with every single deviation in either transaction.  B: 3 pipe relay classes x per-recipient mode x '
-        'exit status {0,1,75,255,-9 (killed by a signal)} x 7 output shapes x 1..2 recipients (+ one failing call among two).  C: HTTP status '
+        'exit status {0,1,75,255,-9 (killed by a signal)} x 9 output shapes x 1..2 recipients (+ one failing call among two).  C: HTTP status '
         '{200,204,302,400,404,500,503} x X-Smtp-Reply {absent,250,450,550,malformed} + refused, dropped, truncated.  D: resolver '
         'answers {MX list, no MX but A, nothing, error} x attempts 0..3 x recipient shapes.  Every script is non-trivial '
         'except the all-success baselines.')
@@ -188,7 +188,9 @@ def run_smtp(cfg, script):
 
 # ------------------------------------------------------------------ part B (pipe)
 PIPE_OUT = [(b'', b''), (b'5.1.1 user unknown\n', b''), (b'', b'5.1.1 user unknown\n'), (b'4.2.0 try later\n', b''),
-            (b'no status code here\n', b''), (b'maildrop: quota exceeded\n', b''), (b'', b'\xff\xfe invalid utf-8\n')]
+            (b'no status code here\n', b''), (b'maildrop: quota exceeded\n', b''), (b'', b'\xff\xfe invalid utf-8\n'),
+            # nothing but white space on stdout, the verdict on stderr
+            (b'\n', b'5.1.1 user unknown\n'), (b' \n', b'4.2.0 try later\n')]
 
 
 def run_pipe(case):
@@ -428,6 +430,14 @@ def run_mx(case):
                     fail(perr.ARES_ENODATA)
                 else:
                     fail(perr.ARES_ETIMEOUT)
+            elif resolver == 'a-empty':
+                # no MX data, and an A answer that carries no record at all
+                if qtype == 'MX':
+                    fail(perr.ARES_ENODATA)
+                else:
+                    r.set([])
+            elif resolver == 'mx-empty':
+                r.set([])
             return r
     with World(Chooser()) as w:
         net = Net(w)
@@ -481,7 +491,7 @@ def judge_mx(case):
     elif resolver == 'a-only':
         if c != 'delivered' or [h for h, p in connected] != [domain]:
             out.append((dict(base, kind='a-fallback', attempts=attempts), desc))
-    elif resolver == 'nothing':
+    elif resolver in ('nothing', 'a-empty', 'mx-empty'):
         if c != 'perm' or connected:
             out.append((dict(base, kind='no-records-not-permanent', reported=c), desc))
     else:
@@ -602,7 +612,7 @@ def mx_seq_cases():
 
 
 def mx_cases():
-    for resolver in ('mx3', 'a-only', 'nothing', 'error', 'a-error'):
+    for resolver in ('mx3', 'a-only', 'nothing', 'error', 'a-error', 'a-empty', 'mx-empty'):
         for attempts in (0, 1, 2, 3):
             for rcpt in ('u@Example.com', 'nodomain', 'u@', '"a@b"@example.com'):
                 yield (resolver, attempts, rcpt)
